@@ -45,7 +45,7 @@ func usage() {
 }
 
 type common struct {
-	prop, tier, goit, goitvfs, goitin, scratch, verif, file string
+	prop, tier, goit, goitvfs, goitin, scratch, verif, file, out string
 	seed                                                   int64
 	workers                                                int
 }
@@ -62,6 +62,7 @@ func parse(args []string) *common {
 	fs.StringVar(&c.scratch, "scratch", "", "scratch directory (tmpfs)")
 	fs.StringVar(&c.verif, "verif", "/verif", "verif directory")
 	fs.StringVar(&c.file, "file", "", "witness file (replay)")
+	fs.StringVar(&c.out, "out", "", "directory for evidence/ and replay/ (default: -verif)")
 	fs.IntVar(&c.workers, "workers", 0, "worker count (default NumCPU)")
 	fs.Parse(args)
 	return c
@@ -88,6 +89,9 @@ func mkctx(a *common, prop string) (*core.Ctx, *mon.Prop, int) {
 	c.Goit, c.GoitVFS, c.GoitIn = a.goit, a.goitvfs, a.goitin
 	c.Scratch = a.scratch
 	c.VerifDir = a.verif
+	if a.out != "" {
+		c.VerifDir = a.out
+	}
 	if a.workers > 0 {
 		c.Workers = a.workers
 	}
@@ -115,7 +119,7 @@ func run(args []string) int {
 		return rc
 	}
 	p.Run(c)
-	return c.Finish(filepath.Join(a.verif, "evidence", a.prop+".json"), p.Floors)
+	return c.Finish(filepath.Join(c.VerifDir, "evidence", a.prop+".json"), p.Floors)
 }
 
 func replay(args []string) int {
